@@ -227,7 +227,7 @@ func firstLine(s string, n int) string {
 func (r *CheckRun) explore(e *EntrySpec, t *TierSpec, params map[string]int) CaseReport {
 	e.params = params
 	cfg := ExploreConfig{Workers: r.workers, StepLimit: t.StepLimit, MaxPaths: t.MaxPaths, MaxDecisions: t.MaxDecisions,
-		QueryTimeout: t.TimeoutMs, CrossCheck: r.cross, IntSolver: e.IntSolver}
+		QueryTimeout: t.TimeoutMs, CrossCheck: r.cross, IntSolver: e.IntSolver, NoCross: e.NoCross}
 	if cfg.StepLimit == 0 {
 		cfg.StepLimit = 2_000_000
 	}
